@@ -9,5 +9,6 @@ def run(tier, seed, replay):
         PID, tier, seed, replay, "Reporter_Trace",
         COMMON + ["-n", "50", "-blocks", "40"],
         COMMON + ["-n", "400", "-blocks", "60"],
-        "Reporter.tla: stake of a report = sum over the reporter's unlocked selectors of their delegations to bonded validators (observed from the staking module independently of ReporterStake), power = stake div 10^6, stored token origins = exactly those summands; guards of select/switch (room below the cap, reporter's minimum), unjail only after jail time, switch after the previous reporter reported locks for the unbonding period; inferred history: the same selector's stake never serves two reporters' accepted reports within the unbonding period. Recorded histories (delegate/undelegate/redelegate, 100% slashes unbonding validators, create/select/switch/remove, jail/unjail) validated by TLC.",
-        ["observed per-delegation tokens come from the staking keeper (TokensFromShares truncated), logged before each message", "MaxValidators is the SDK default (100), so the 'more delegations than the validator cap' branch is not reached by these histories"])
+        "ReporterSM.tla: the selection table as a constructive state machine (create / select / switch with lock rule / remove); ReporterSM_MC explores every interleaving of these with reports and time over three accounts (317 k / 14 M states) and checks the consequence C10 states - the same stake never serves two reporters within an unbonding period - plus one reporter per selector, cap, locks never shorten; with removals enabled (ReporterSM_MC_removal.cfg) TLC produces the counterexample that became finding F-25, replayed on the chain by RemovalStory. Reporter.tla: stake of a report = sum over the reporter's unlocked selectors of their delegations to bonded validators (observed from the staking module independently of ReporterStake), power = stake div 10^6, stored token origins = exactly those summands; guards of select/switch (room below the cap, reporter's minimum), unjail only after jail time, switch after the previous reporter reported locks for the unbonding period; inferred history: the same selector's stake never serves two reporters' accepted reports within the unbonding period. Recorded histories (delegate/undelegate/redelegate, 100% slashes unbonding validators, create/select/switch/remove, jail/unjail) validated by TLC.",
+        ["observed per-delegation tokens come from the staking keeper (TokensFromShares truncated), logged before each message", "MaxValidators is the SDK default (100), so the 'more delegations than the validator cap' branch is not reached by these histories"],
+        mc=[("ReporterSM_MC", "ReporterSM_MC.cfg", "ReporterSM_MC_thorough.cfg", 8)])
